@@ -54,24 +54,88 @@ type Gen struct {
 
 // Prop describes one property's monitor.
 type Prop struct {
-	ID          string
-	Rule        string
-	Assumptions []string
-	Gen         func(g *Gen) []Case
-	Run         func(w *W, c Case)
-	Init        func(w *W)
-	Post        func(pc *Parent)
-	Exhaustive  func(tier string) bool
-	MinEvals    map[string]int64
-	Chunks      int // number of chunks (default 64)
-	Race        bool
-	Custom      func(pc *Parent) // replaces the generic case pool when set
+	ID           string
+	Rule         string
+	Assumptions  []string
+	Gen          func(g *Gen) []Case
+	Run          func(w *W, c Case)
+	Init         func(w *W)
+	Post         func(pc *Parent)
+	Exhaustive   func(tier string) bool
+	MinEvals     map[string]int64
+	Chunks       int // number of chunks (default 64)
+	Race         bool
+	Custom       func(pc *Parent) // replaces the generic case pool when set
 	ChunkTimeout map[string]time.Duration
+	// BlockKind names a one-year case kind for which "block" cases are added: one process then works through
+	// consecutive years in a row (forwards or backwards), the way a long-running caller would, on top of the
+	// strided distribution that never puts two neighbouring years into the same process.
+	BlockKind                 string
+	BlockQuick, BlockThorough [2]int // {number of blocks, years per block}; thorough count 0 = tile the whole range
 }
 
 var props = map[string]*Prop{}
 
-func register(p *Prop) { props[p.ID] = p }
+func register(p *Prop) {
+	props[p.ID] = p
+	if p.BlockKind == "" {
+		return
+	}
+	gen, run := p.Gen, p.Run
+	p.Gen = func(g *Gen) []Case {
+		cs := gen(g)
+		nb, ln := p.BlockQuick[0], p.BlockQuick[1]
+		if !g.Quick {
+			nb, ln = p.BlockThorough[0], p.BlockThorough[1]
+		}
+		if ln <= 0 {
+			return cs
+		}
+		rng := rand.New(rand.NewSource(g.Seed*7919 + 13))
+		if nb == 0 {
+			for y, i := minYear, 0; y <= maxYear; y, i = y+ln, i+1 {
+				n := ln
+				if y+n-1 > maxYear {
+					n = maxYear - y + 1
+				}
+				cs = append(cs, Case{K: "block", A: []int{y, n, i % 2}})
+			}
+			return cs
+		}
+		fixed := []int{2017, 1578, 1, maxYear - ln + 1}
+		for i := 0; i < nb; i++ {
+			y := minYear + rng.Intn(maxYear-minYear-ln)
+			if i < len(fixed) {
+				y = fixed[i]
+			}
+			cs = append(cs, Case{K: "block", A: []int{y, ln, i % 2}})
+		}
+		return cs
+	}
+	p.Run = func(w *W, c Case) {
+		if c.K != "block" {
+			run(w, c)
+			return
+		}
+		y0, n, back := c.A[0], c.A[1], c.A[2]
+		w.Class("block")
+		w.InBlock = true
+		defer func() { w.InBlock = false }()
+		for i := 0; i < n; i++ {
+			y := y0 + i
+			if back == 1 {
+				y = y0 + n - 1 - i
+			}
+			if y < minYear || y > maxYear {
+				continue
+			}
+			if w.Full() {
+				return
+			}
+			run(w, Case{K: p.BlockKind, A: []int{y}})
+		}
+	}
+}
 
 // Violation is one refuting observation.
 type Violation struct {
@@ -120,6 +184,8 @@ type W struct {
 	curCase *Case
 	seen    map[string]bool
 	nsample map[string]int
+	nOpen   int
+	InBlock bool // the current case is one year of a consecutive-years block
 	mu      sync.Mutex
 }
 
@@ -141,10 +207,10 @@ func (w *W) Curf(format string, a ...interface{}) {
 	w.Cur(fmt.Sprintf(format, a...))
 }
 
-func (w *W) Eval(n int)              { w.R.Evals += int64(n) }
-func (w *W) Distinct(n int)          { w.R.Distinct += int64(n) }
+func (w *W) Eval(n int)               { w.R.Evals += int64(n) }
+func (w *W) Distinct(n int)           { w.R.Distinct += int64(n) }
 func (w *W) Count(name string, n int) { w.R.Counters[name] += int64(n) }
-func (w *W) Class(name string)       { w.R.Classes[name] = true }
+func (w *W) Class(name string)        { w.R.Classes[name] = true }
 func (w *W) Masked(mon string, n int) { w.R.Masked[mon] += int64(n) }
 
 // Sample keeps a few literal cases per monitor for the evidence file.
@@ -169,6 +235,21 @@ func (w *W) Violate(mon, key, msg string, detail interface{}) {
 	if len(w.R.Violations) < maxStoredViolations {
 		w.R.Violations = append(w.R.Violations, Violation{Monitor: mon, Key: k, Msg: msg, Case: w.curCase, Detail: detail})
 	}
+}
+
+// Full: this process has already recorded so many distinct violations (none of which a listed open finding could
+// account for) that further cases only add witnesses; the verdict cannot change. Keeps runs on a badly broken tree
+// from taking hours (some breakages make every later call slower).
+func (w *W) Full() bool {
+	if w.nOpen < 0 {
+		w.nOpen = 0
+		for _, f := range loadFindings() {
+			if f.Property == w.P.ID && f.Status == "open" {
+				w.nOpen++
+			}
+		}
+	}
+	return w.nOpen == 0 && w.R.NViol >= 2000
 }
 
 func (w *W) Violatef(mon, key, format string, a ...interface{}) {
@@ -270,7 +351,11 @@ func workerMain(args []string) int {
 		p.Init(w)
 	}
 	for _, c := range cases {
-		w.runCase(c)
+		if w.Full() {
+			w.Count("cases-skipped-after-2000-violations", 1)
+		} else {
+			w.runCase(c)
+		}
 		w.R.Cases++
 	}
 	w.R.Done = true
@@ -285,7 +370,7 @@ func workerMain(args []string) int {
 }
 
 func newW(p *Prop, tier string, seed int64) *W {
-	return &W{P: p, Tier: tier, Quick: tier == "quick", Seed: seed, R: newResult(), seen: map[string]bool{}, nsample: map[string]int{}, Rng: rand.New(rand.NewSource(seed))}
+	return &W{P: p, Tier: tier, Quick: tier == "quick", Seed: seed, R: newResult(), nOpen: -1, seen: map[string]bool{}, nsample: map[string]int{}, Rng: rand.New(rand.NewSource(seed))}
 }
 
 // ---------------------------------------------------------------- parent
